@@ -180,7 +180,7 @@ theorem c10_step (cfg : Cfg) (hc : CfgOk cfg) (t : Tree) (hinv : TreeInv cfg t) 
     TreeInv cfg (applyOp cfg t op) ∧ PidInv (applyOp cfg t op) ∧ abs (applyOp cfg t op) = specOp (abs t) op := by
   cases op with
   | set k v =>
-    obtain ⟨h1, h2, h3⟩ := set_spec hc t k v hinv hl
+    obtain ⟨h1, h2, h3, _⟩ := set_spec hc t k v hinv hl
     refine ⟨h1, hp.step h3, ?_⟩
     funext k'
     show lookupD (toList (set cfg t k v).root) k' = _
